@@ -20,26 +20,24 @@ THEOREMS = [
     "eq_refl", "eq_symm", "eq_trans", "eq_hash",
     "cross_type_cmp", "int32_int64_differ", "null_least",
     "sql_kernel_eq_cmp", "sql_lt_iff_cmp", "sql_cross_width",
-    "date_roundtrip", "date_display_out_of_range", "civil_roundtrip",
+    "date_roundtrip", "date_display_out_of_range_regression", "date_out_of_range_unparseable", "civil_roundtrip",
     "int_roundtrip", "bool_roundtrip", "string_roundtrip",
-    "blob_roundtrip_partial", "blob_roundtrip_unsound",
+    "blob_roundtrip", "blob_backslash_quote_regression",
     "interval_roundtrip_partial", "timestamp_roundtrip_partial", "interval_roundtrip_unsound", "timestamp_roundtrip_unsound", "timestamp_wholesec_roundtrip_unsound", "f64_nan_roundtrip",
 ]
 
 # reason tag computed by the model  ->  known-finding signature
 WHY_SIG = {
-    "blob-escape": ("roundtrip:blob:backslash-or-quote",
-                    "Blob Display doubles `\\` and `'` but Blob::from_str does not undo it: parse(display(b)) != b"),
     "ts-subsecond": ("roundtrip:timestamp:subsecond",
                      "Timestamp/TimestampTz Display truncates to milliseconds and prints a fraction that from_str rejects (or silently drops sub-millisecond parts)"),
     "iv-subsecond": ("roundtrip:interval:subsecond",
                      "Interval Display drops the sub-second part of `ms`"),
     "ts-bc-wide-year": ("roundtrip:timestamp:bc-year-over-4-digits",
                         "Timestamp Display prints years below -9999 as `<5+ digits> … BC` without sign, which `%Y` (at most 4 digits unless signed) rejects"),
-    "date-range-panic": ("display:date:out-of-range-panic",
-                         "Date Display panics (unwrap on None / i32 overflow) for day counts outside chrono's range"),
-    "ts-range-panic": ("display:timestamp:out-of-range-panic",
-                       "Timestamp Display panics for values outside chrono's range / i64 subtraction overflow"),
+    "date-range": ("roundtrip:date:out-of-range",
+                   "Date admits every i32 day count but its text form is chrono's (years -262143..=262142): outside it Display prints `<date out of range: N days>`, which does not parse back"),
+    "ts-range": ("roundtrip:timestamp:out-of-range",
+                 "Timestamp admits every i64 but its text form is chrono's: outside it Display prints `<timestamp out of range: N us>`, which does not parse back"),
 }
 
 ORD = {"lt", "eq", "gt"}
